@@ -81,6 +81,51 @@ CHECKS = {
     text="Inversion: for every n x n matrix over GF(16) (n=2), GF(4) (n=2; n=3 thorough), GF(2) (n<=3; n<=5 thorough): ret in {0,-1}, ret==0 iff det != 0, A*out = out*A = I. Generators: identity top block, cauchy[i][j]=inv(i^j), rs[i][j]=(2^(i-k))^j for symbolic (i,j) and (m,k) up to (256,10)/(32,16). "
          "Recovery: for concrete (m,k) <= (9,3)/(8,4) (thorough (12,6)) and k symbolic strictly increasing survivors, the decode matrix built as the example does is invertible and inv*B = I (Cauchy; Vandermonde on documented-safe pairs).",
     note="Inversion over all of GF(2^8) is undecided (900 s, 5 back ends) and outside; subfield entries exercise every pivot/swap/singular pattern with real field arithmetic. Larger recovery instances use C12's lemmas to replace gf_mul/gf_inv by the specification."),
+ "C01": dict(
+    engine="cbmc-c", category="model_checking", design_ref="DESIGN.md §5b C01",
+    technique="CBMC on isal_deflate_stateless / single-call isal_deflate (level 0, portable C kernels) with all input bytes symbolic; independent RFC 1951 reference decoder inside the same formula; literal code lengths made concrete per query (class vectors, completeness proved by OTHER queries)",
+    text="For every input of n <= 3 bytes (thorough 4..6), five wrappers, flush modes, default and static tables and avail_out in {bound, bound+8, 64}: the output has an RFC-conformant wrapper header, the reference decoder accepts it, decodes exactly the input, "
+         "consumes it to its last byte, the trailer is CRC-32||ISIZE (LE) resp. Adler-32 (BE), final state ZSTATE_END. Plus the constant-run shortcut of the stateless API (whole input = 8..300 bytes of 0x00/0xFF) over an avail_out sweep.",
+    note="Levels 1-3, custom tables, inputs > 6 bytes, and EVERY assembly body are outside (measured: symbolic sizes/longer inputs do not finish). Default-table streaming is decided only for n=0 (dynamic header parse goes symbolic). "
+         "Assumptions: per-query literal code-length class vector, swept completely. Trusted: cbmc, spec/rfc1951.h (self-tested against zlib)."),
+ "C10": dict(
+    engine="cbmc-c", category="model_checking", design_ref="DESIGN.md §5b C10",
+    technique="CBMC: avail_out sweep on exact-size output objects for the one-shot API; stored-block fallback with SYMBOLIC n <= 200000 and a range-recording memcpy; parameter validation with fully symbolic level/flush/level_buf_size",
+    text="(a) avail_out 0..bound+9 for n <= 2 (3): COMP_OK whenever avail_out >= n+5*blocks+wrapper, a COMP_OK result is a complete correct stream, no byte written past avail_out, counters consistent. (b) stored fallback for all n <= 200000 symbolically: block count, LEN/NLEN, BFINAL on the last block only, "
+         "tiling of the input, total_out formula, no arithmetic wrap. (c) every invalid level/flush/level buffer is rejected with the documented code before any output.",
+    note="Streaming termination is asserted in C07's bounded call loops. Levels 1-3 outside. Doc/code mismatch noted: undersized level_buf returns ISAL_INVALID_LEVEL (documented ISAL_INVALID_LEVEL_BUF); the check accepts either."),
+ "C07": dict(
+    engine="cbmc-c", category="model_checking", design_ref="DESIGN.md §5b C07",
+    technique="CBMC on multi-call isal_deflate (level 0) over every 3-chunk input split x output chunk sizes {1,2,7,8,9,64} x early/late end_of_stream x flush sequences, input bytes symbolic, reference decoder as oracle; trailer-consumption units for streaming inflate",
+    text="For total n <= 3 and every slicing in the swept set the call loop reaches ZSTATE_END within the bound, every call makes progress, and the concatenated output decodes to the concatenated input with a correct trailer; the ZSTATE_TMP_* staging paths (avail_out < 8) are exercised by output chunks 1,2,7.",
+    note="Decompression side: only trailer/stored/wrapper units (C02, C11, C19) - the streaming Huffman decoder needs the big tables (out of reach). Levels 1-3 outside. Observation (not a violation as worded): SYNC_FLUSH with 2..6-byte output buffers keeps emitting empty blocks (harness/C07/repro_flush_livelock.c)."),
+ "C14": dict(
+    engine="cbmc-c", category="model_checking", design_ref="DESIGN.md §5b C14",
+    technique="CBMC on the C07 streaming harness with flush requests (two symbolic segments, SYNC/FULL flush, output chunkings) plus the stateless raw FULL_FLUSH append harness; reference decoder run on the prefix and on the suffix in isolation",
+    text="When the flushing call returns with all input consumed and space left: output ends 00 00 FF FF on a byte boundary, the prefix decodes exactly to segment 1 without BFINAL, state is ZSTATE_NEW_HDR; after FULL_FLUSH the suffix decodes alone (no history) to segment 2; stateless raw FULL_FLUSH output is aligned, unterminated and appendable.",
+    note="total input <= 3 (4) bytes, level 0: real back-references across a flush need >= 8 bytes and are outside; the history/hash reset logic is covered by C05's history invariant."),
+ "C02": dict(
+    engine="cbmc-c", category="model_checking", design_ref="DESIGN.md §5b C02",
+    technique="CBMC differential checking of igzip_inflate.c units against the independent RFC 1951 decoder: stored blocks through the real isal_inflate_stateless, the fixed-Huffman block decoder unit, set_codes vs RFC 3.2.2, trailer consumption; stream bytes symbolic",
+    text="Valid stored-block streams (<= 12 bytes) and fixed-Huffman blocks (<= 2 (3) bytes) decode to exactly the reference output with the exact end position and finished state; canonical code assignment equals RFC 3.2.2 for alphabets <= 4 (5..19 thorough); after the gzip/zlib trailer the reported input position is the true end of the stream.",
+    note="Whole isal_inflate on Huffman data, dynamic-table construction (code lengths up to 15, multi-symbol packing), and the _01/_04 assembly decoders are out of reach (measured). Output arena prefix 256 bytes (stated assumption for n >= 3)."),
+ "C06": dict(
+    engine="cbmc-c", category="model_checking", design_ref="DESIGN.md §5b C06",
+    technique="the C02 unit harnesses on ARBITRARY bytes (validity assumption dropped) + make_inflate_huff_code_dist/decode_next_dist with symbolic stale table contents; differential against the reference decoder",
+    text="On arbitrary input bytes: only documented status codes, never more than avail_out written, success only if the reference decoder accepts with equal output; LEN/NLEN mismatch and BTYPE=3 => INVALID_BLOCK, symbols 286/287 and distance codes 30/31 => INVALID_SYMBOL, distance > produced => INVALID_LOOKBACK, truncation => END_INPUT; "
+         "undefined distance codes are invalid whatever the lookup table held before.",
+    note="Same reach limits as C02: dynamic header code-length loop and table builders, inputs > 3 Huffman bytes, assembly decoders are outside."),
+ "C17": dict(
+    engine="cbmc-c", category="model_checking", design_ref="DESIGN.md §5b C17",
+    technique="CBMC: one-iteration match-finder harness for isal_deflate_finish_base with all loaded values arbitrary (loads/emission redirected by macros), zlib CINFO for all hist_bits/levels, dictionary API calls with SYMBOLIC dict_len <= 70000 and range-recording memcpy, hash priming",
+    text="Every match emitted by the level-0 finish kernel has 1 <= distance <= 2^hist_bits <= 32768 and every load stays inside the stream (position symbolic, hist_bits 9..15); the zlib header announces a window >= the one used; set_dict/process_dict/reset_dict/inflate_set_dict copy exactly the last min(len, 32 KiB) bytes, "
+         "keep bookkeeping consistent and refuse from every wrong state without side effects.",
+    note="Match finder: holds with a constant hash function only (arbitrary hash: OOM); isal_deflate_body_base, ICF match finders, assembly bodies, end-to-end dictionary round trips are outside."),
+ "C18": dict(
+    engine="cbmc-c", category="model_checking", design_ref="DESIGN.md §5b C18",
+    technique="CBMC unit checks of huff_codes.c: run-length encoding of code lengths vs its expansion, packed length/distance tables vs the RFC 1951 symbol+extra-bit encoding for arbitrary codes, usability bound, isal_deflate_set_hufftables over all states",
+    text="rl_encode/write_rl reproduce every code-length sequence (<= 6 entries, 2-run sequences over 24, runs <= 300); packed (code, extra bits, length) equals the RFC encoding for symbolic length 3..258 / distance 1..32768 and arbitrary code words; set_hufftables is refused in every state != ZSTATE_NEW_HDR without side effects.",
+    note="The tree construction (build_huff_tree/gen_huff_code_lens/fix_code_lens) is NOT decided: CBMC 6.11 mis-models struct heap_tree's anonymous union (sanity assertion fails in CBMC, passes natively; array-backed object OOM at 19 GB); isal_create_hufftables call sites, create_header, 286-symbol instances, assembly histogram collectors are outside."),
 }
 
 NOT_YET = {}
